@@ -587,6 +587,16 @@ template <class D> struct ObjHarness : Harness {
   void check_ok(Run& R, const Op& op, const D& x, const char* who) {
     if (!x.OK())
       R.ctx.violation(R.prop, "ok", klass(op, who), std::string("OK() is false for the ") + who + " after a completed operation");
+    // the class invariant of the descriptions themselves (sortedness flags, row shapes), which the object's OK() does not
+    // look at: checked on private copies so that the lazy state of `x' is not touched
+    else if constexpr (Dom<D>::kind == POLY) {
+      if (x.space_dimension() > 0) { D c1(x); bool a = c1.constraints().OK(); D c2(x); bool b = c2.generators().OK();
+        if (!a || !b) R.ctx.violation(R.prop, "ok", klass(op, std::string(who) + "|system"), std::string("the ") + (!a ? "constraint" : "generator") + " system of the " + who + " fails its own OK() after a completed operation"); }
+    }
+    else if constexpr (Dom<D>::kind == GRID) {
+      if (x.space_dimension() > 0) { D c1(x); bool a = c1.congruences().OK(); D c2(x); bool b = c2.grid_generators().OK();
+        if (!a || !b) R.ctx.violation(R.prop, "ok", klass(op, std::string(who) + "|system"), std::string("the ") + (!a ? "congruence" : "generator") + " system of the " + who + " fails its own OK() after a completed operation"); }
+    }
   }
 
   // ---------------- C15: dump -> (destroy) -> load
@@ -770,6 +780,20 @@ template <class D> struct ObjHarness : Harness {
           D copy(x);
           (void) copy.is_empty();
           if (!copy.OK()) ctx.violation("C14", "damaged-not-ok", klass(op, outcome + "|copy"), "a copy of an object involved in a call cut short by " + outcome + " fails OK() after is_empty()");
+          // self-consistency: the object must equal (in both argument orders) the object rebuilt eagerly from its own
+          // description; stale internal flags (sortedness, minimality, cached closures) make these answers disagree
+          else if constexpr (Dom<D>::kind == POLY || Dom<D>::kind == SHAPE || Dom<D>::kind == BOX || Dom<D>::kind == GRID) {
+            D c1(x); std::unique_ptr<D> tw = canonical(c1, (int) (k % 4));
+            D a(x), b(*tw), c(*tw), d2(x);
+            bool e1 = (a == b), e2 = (c == d2);
+            D p(x), q(*tw); bool c1b = p.contains(q), c2b = q.contains(p);
+            ctx.stat("c14.self_consistency_checks");
+            if constexpr (Dom<D>::kind == POLY) {     // the descriptions themselves are well-formed systems (sortedness flag, row shapes)
+              D s1(x); bool cs_ok = s1.constraints().OK(); D s2(x); bool gs_ok = s2.generators().OK();
+              if (!cs_ok || !gs_ok) ctx.violation("C14", "damaged-inconsistent", klass(op, outcome + "|system"), std::string("after a call cut short by ") + outcome + " the " + (!cs_ok ? "constraint" : "generator") + " system of the object fails its own OK()");
+            }
+            if (!(e1 && e2 && c1b && c2b)) ctx.violation("C14", "damaged-inconsistent", klass(op, outcome), std::string("an object involved in a call cut short by ") + outcome + " disagrees with its own eager rebuild: x==t " + (e1 ? "T" : "F") + ", t==x " + (e2 ? "T" : "F") + ", x.contains(t) " + (c1b ? "T" : "F") + ", t.contains(x) " + (c2b ? "T" : "F"));
+          }
         }
         catch (const std::exception& e) { ctx.violation("C14", "damaged-unusable", klass(op, outcome), std::string("copying / querying an object involved in a call cut short throws: ") + e.what()); }
       }
